@@ -2,6 +2,7 @@ import JF.Model.Walker
 import JF.Lemmas.WalkerBuild
 import JF.Lemmas.WalkerGeom
 import JF.Lemmas.WalkerHandler
+import JF.Lemmas.WalkerMeasure
 import Mathlib.Order.Interval.Set.Basic
 /-!
 # C18 — Cell-veto proposals pick target cells exactly in proportion to their bound rates
@@ -20,7 +21,19 @@ Part 1 (Walker): for every non-empty vector of non-negative rates with positive 
   `sample_cell` returns `i` (the pointwise sampling rule is `sample_pointwise`), hence
   `selection_probability : (1/n) Σ_rows length_i(row)/mean = rate_i / total`;
 * `zero_rate_never_selected` for draws `0 < x ≤ mean`, and `zero_rate_selected_at_draw_zero`: at the draw
-  `x = 0` a zero-rate item *is* returned (finding F4; exact and binary64 reading).
+  `x = 0` a zero-rate item *is* returned (finding F4; exact and binary64 reading);
+* `selection_probability_measure`: the same probability statement with Lebesgue measure on the real draws
+  (`measureProbability`), `selection_probabilities_sum_to_one`, `leftover_exact`.
+
+Part 2 (cell-veto handler, see the section comment below): `send_event_time_sound`, `translate_is_offset`,
+`targets_distinct`, `offset_proposal_rate`, `bounding_rate_positive`, `sendCore_never_asserts`.
+
+Not covered by theorems (named gaps): the binary64 table satisfies `mass` only up to rounding (the run-time
+correspondence ties the float behaviour bit for bit, the oracle bounds the deviation by `(n+10)·2⁻⁵⁰`); the
+system-level conjunct `vetoCellCurrent` of DESIGN.md (the active cell of a *pending* cell-veto event is still
+current at commit time) belongs to the system model and is not proved here; "the possible targets are exactly the
+non-nearby cells of the active cell" is proved only as injectivity of the offset map (`targets_distinct`), the
+nearby set of a non-zero cell is not modelled.
 -/
 namespace JF.C18
 open JF JF.Walker
@@ -387,5 +400,107 @@ theorem bounding_rate_positive {bounds : List (List (ℚ × ℚ))} {sel : ℚ ×
   · have : (walkerRates bounds sel d).getD j 0 = 0 := by
       simp [walkerRates, List.getD_eq_getElem?_getD, List.getElem?_eq_none (not_lt.mp hj)]
     rw [this] at hpos; exact absurd hpos (lt_irrefl _)
+
+/-- the confirmation `assert self._bounding_event_rate > 0.0` (and every other `assert`) of the part of
+`send_event_time` after the choice of the walker cannot fail for a draw `0 < x ≤ mean`, a positive absolute
+charge factor and an exact cell system: the only possible exceptions are an `IndexError` for a row index
+outside the table and a `ZeroDivisionError` for a zero speed -/
+theorem sendCore_never_asserts {h : Handler ℚ} {sel : ℚ × ℚ → ℚ} {d : Nat} {walker : Table ℚ}
+    (V : Valid (walkerRates h.bounds sel d)) (hb : build Ops.rat (walkerRates h.bounds sel d) = .ok walker)
+    (hex : ∀ D ∈ h.grid.dims, DimExact D)
+    (k : Nat) (x : ℚ) (hx0 : 0 < x) (hxm : x ≤ walker.mean) (cf' : ℚ) (hcf : 0 < cf')
+    (speed : ℚ) (active : Nat) (ts : Time ℚ) (e : ℚ) :
+    sendCore Ops.rat h d speed active walker sel cf' ts k x e ≠ .error .assertion := by
+  unfold sendCore
+  simp only [rat_ofInt, Int.cast_zero]
+  cases hs : sampleCell walker k x with
+  | error er =>
+    simp only [sampleCell] at hs
+    split at hs
+    · cases hs; simp
+    · rename_i row hrow
+      have hr := rows_wellformed V hb row (List.mem_of_getElem? hrow)
+      rw [sample_pointwise hr x hxm] at hs
+      cases row with
+      | pair s l => simp only at hs; split at hs <;> cases hs
+      | single y => cases hs
+  | ok j =>
+    have hpos := bounding_rate_positive V hb k j x hx0 hxm hs cf' hcf
+    simp only [hpos, decide_true, Bool.not_true, Bool.false_eq_true, if_false,
+      translate_rat h.grid hex active h.domain[j]!]
+    split <;> simp
+
+/-- the selection probabilities of the `n` items add up to one -/
+theorem selection_probabilities_sum_to_one (V : Valid rates) (hb : build Ops.rat rates = .ok t) :
+    ((List.range rates.length).map (selectionProbability t)).sum = 1 := by
+  have hs := V.pos
+  have h1 : ((List.range rates.length).map (selectionProbability t)) =
+      (List.range rates.length).map (fun i => rates.getD i 0 / rates.sum) :=
+    List.map_congr_left (fun i _ => selection_probability V hb i)
+  have h2 : ∀ l : List ℚ, ((List.range l.length).map (fun i => l.getD i 0)).sum = l.sum := by
+    intro l
+    induction l with
+    | nil => simp
+    | cons a l ih =>
+      rw [List.length_cons, List.range_succ_eq_map, List.map_cons, List.map_map, List.sum_cons, List.sum_cons]
+      simp only [List.getD_cons_zero]
+      congr 1
+  have h3 : ∀ (l : List ℕ) (f : ℕ → ℚ) (c : ℚ), (l.map (fun i => f i / c)).sum = (l.map f).sum / c := by
+    intro l f c
+    induction l with
+    | nil => simp
+    | cons a l ih => simp only [List.map_cons, List.sum_cons, ih]; ring
+  rw [h1, h3, h2]; field_simp
+
+/-- every left-over of the pairing loop has rate exactly the mean (so the constructor's two
+`assert 1-1e-6 < rate/mean < 1+1e-6` see the ratio 1), and the loop has stopped because a stack is empty -/
+theorem leftover_exact (V : Valid rates) :
+    let m := rates.sum / rates.length
+    let out := pairLoop m rates.length (smallOf m (mkItems 0 rates)) (largeOf m (mkItems 0 rates))
+    (out.2.1 = [] ∨ out.2.2 = []) ∧ (∀ x ∈ out.2.1, x.rate = m) ∧ (∀ x ∈ out.2.2, x.rate = m) :=
+  leftovers_exact rates V.ne V.nonneg V.pos
+
+/-! ### the selection probability as a Lebesgue measure
+
+`random.choice` picks each of the `n` rows with probability `1/n`; `random.uniform(0, mean)` is uniform on an
+interval of length `mean`.  `drawSet mean row i ⊆ ℝ` is the set of draws in `(0, mean]` on which `sample_cell`
+returns `i` from `row` (the model's `sampleRow`, read over the reals).  -/
+
+open MeasureTheory in
+/-- probability that `sample_cell` returns item `i`: `Σ_rows (1/n) · λ(drawSet row i) / λ((0, mean])` -/
+noncomputable def measureProbability (t : Table ℚ) (i : Nat) : ℝ :=
+  (1 / (t.rows.length : ℝ)) * (t.rows.map fun row => (volume (drawSet t.mean row i)).toReal / (t.mean : ℝ)).sum
+
+theorem sum_map_cast (f : Row ℚ → ℚ) (l : List (Row ℚ)) :
+    (l.map fun r => ((f r : ℚ) : ℝ)).sum = (((l.map f).sum : ℚ) : ℝ) := by
+  induction l with
+  | nil => simp
+  | cons a l ih => simp only [List.map_cons, List.sum_cons, ih]; push_cast; ring
+
+/-- **P(item i) = rate_i / total**, as a statement about Lebesgue measure over the two random draws -/
+theorem selection_probability_measure (V : Valid rates) (hb : build Ops.rat rates = .ok t) (i : Nat) :
+    measureProbability t i = ((rates.getD i 0 / rates.sum : ℚ) : ℝ) := by
+  obtain ⟨-, hmpos⟩ := mean_rate_eq V hb
+  have hrows := rows_wellformed V hb
+  rw [← selection_probability V hb i]
+  unfold measureProbability selectionProbability
+  have : (t.rows.map fun row => (MeasureTheory.volume (drawSet t.mean row i)).toReal / (t.mean : ℝ)) =
+      t.rows.map fun row => (((contrib i row / t.mean : ℚ)) : ℝ) := by
+    apply List.map_congr_left
+    intro row hrow
+    rw [volume_drawSet_toReal t.mean hmpos.le row i (hrows row hrow)]
+    push_cast; rfl
+  rw [this, sum_map_cast]
+  push_cast; rfl
+
+/-- from a given active cell, different offsets are mapped to different target cells (exact cell system), so
+the possible targets are in one-to-one correspondence with the walker's domain -/
+theorem targets_distinct (g : Grid ℚ) (hex : ∀ D ∈ g.dims, DimExact D) (c r₁ r₂ : Nat)
+    (h₁ : r₁ < numCells g.ns) (h₂ : r₂ < numCells g.ns)
+    (h : translate Ops.rat g c r₁ = translate Ops.rat g c r₂) : r₁ = r₂ := by
+  have hpos : ∀ n ∈ g.ns, 0 < n := by
+    intro n hn; simp only [Grid.ns, List.mem_map] at hn; obtain ⟨D, hD, rfl⟩ := hn; exact (hex D hD).1
+  rw [translate_rat g hex, translate_rat g hex, Except.ok.injEq] at h
+  exact addIdx_injective g.ns hpos c r₁ r₂ h₁ h₂ h
 
 end JF.C18
